@@ -123,66 +123,71 @@ func TestC19Graph(t *testing.T) {
 	})
 }
 
-// TestC19Exhaustive enumerates all sequences of <= L mutations over 3
-// identities, with all queries after each mutation.
+// TestC19Exhaustive enumerates all sequences of <= L mutations over n
+// identities, with all queries after each mutation: (n=3,L=2) in the quick tier,
+// (n=3,L=3) and (n=2,L=4) in the thorough tier.
 func TestC19Exhaustive(t *testing.T) {
-	col := evid.New("C19", "exhaustive-short-sequences", "all sequences of up to L mutations (L=2 quick, 3 thorough) over 3 node identities: add/deferred add with every dependency list of length<=2 drawn from the 3 ids (incl. self and duplicate), remove, clear, detect; all queries after each mutation; non-trivial = contains a rejected add, replace or in/out removal")
+	col := evid.New("C19", "exhaustive-short-sequences", "all sequences of up to L mutations over n node identities - quick: n=3,L=2; thorough: n=3,L=3 and n=2,L=4 - with the alphabet: add / deferred add with every dependency list of length<=2 drawn from the n ids (incl. self and duplicates), remove, clear, detect; all queries after each mutation; non-trivial = contains a rejected add, replace or in/out removal")
 	col.Exhaust = true
 	defer col.Flush()
-	n := 3
-	var depLists [][]int
-	depLists = append(depLists, nil)
-	for a := 0; a < n; a++ {
-		depLists = append(depLists, []int{a})
-		for b := 0; b < n; b++ {
-			depLists = append(depLists, []int{a, b})
-		}
-	}
-	var alphabet []gOp
-	for k := 0; k <= 1; k++ {
-		for v := 0; v < n; v++ {
-			for _, d := range depLists {
-				alphabet = append(alphabet, gOp{Kind: k, V: v, Deps: d})
-			}
-		}
-	}
-	for v := 0; v < n; v++ {
-		alphabet = append(alphabet, gOp{Kind: 2, V: v})
-	}
-	alphabet = append(alphabet, gOp{Kind: 3}, gOp{Kind: 4})
-	L := 2
+	type bound struct{ n, L int }
+	bounds := []bound{{3, 2}}
 	if thorough() {
-		L = 3
+		bounds = []bound{{3, 3}, {2, 4}}
 	}
 	si, sn := shardInfo()
-	var rec func(prefix []gOp, depth int) bool
-	count := 0
-	rec = func(prefix []gOp, depth int) bool {
-		if len(prefix) > 0 {
-			count++
-			if len(prefix) == L || true {
-				rej, rep, rmb, err := applyGOps(n, prefix, true)
-				col.Case(rej+rep+rmb > 0, fmt.Sprint(prefix), fmt.Sprint(prefix))
-				if err != nil {
-					evid.Violation("C19", "exhaustive", map[string]any{"ops": fmt.Sprint(prefix), "error": err.Error()})
-					t.Errorf("%v\nops: %v", err, prefix)
-					return false
+	for _, b := range bounds {
+		n, L := b.n, b.L
+		var depLists [][]int
+		depLists = append(depLists, nil)
+		for a := 0; a < n; a++ {
+			depLists = append(depLists, []int{a})
+			for c := 0; c < n; c++ {
+				depLists = append(depLists, []int{a, c})
+			}
+		}
+		var alphabet []gOp
+		for k := 0; k <= 1; k++ {
+			for v := 0; v < n; v++ {
+				for _, d := range depLists {
+					alphabet = append(alphabet, gOp{Kind: k, V: v, Deps: d})
 				}
 			}
 		}
-		if depth == L {
-			return true
+		for v := 0; v < n; v++ {
+			alphabet = append(alphabet, gOp{Kind: 2, V: v})
 		}
-		for i, o := range alphabet {
-			if depth == 0 && i%sn != si {
-				continue
+		alphabet = append(alphabet, gOp{Kind: 3}, gOp{Kind: 4})
+		failed := false
+		var rec func(prefix []gOp, depth int)
+		rec = func(prefix []gOp, depth int) {
+			if failed {
+				return
 			}
-			if !rec(append(prefix[:len(prefix):len(prefix)], o), depth+1) {
-				return false
+			if len(prefix) > 0 {
+				rej, rep, rmb, err := applyGOps(n, prefix, true)
+				col.Case(rej+rep+rmb > 0, fmt.Sprintf("n=%d %v", n, prefix), fmt.Sprintf("n=%d %v", n, prefix))
+				if err != nil {
+					evid.Violation("C19", "exhaustive", map[string]any{"n": n, "ops": fmt.Sprint(prefix), "error": err.Error()})
+					t.Errorf("%v\nn=%d ops: %v", err, n, prefix)
+					failed = true
+					return
+				}
+			}
+			if depth == L {
+				return
+			}
+			for i, o := range alphabet {
+				if depth == 0 && i%sn != si {
+					continue
+				}
+				rec(append(prefix[:len(prefix):len(prefix)], o), depth+1)
 			}
 		}
-		return true
+		rec(nil, 0)
+		col.Note(fmt.Sprintf("n=%d: alphabet=%d ops, L=%d", n, len(alphabet), L))
+		if failed {
+			return
+		}
 	}
-	rec(nil, 0)
-	col.Note(fmt.Sprintf("alphabet=%d ops, L=%d", len(alphabet), L))
 }
